@@ -102,11 +102,27 @@ impl<'a, 'tcx> Cx<'a, 'tcx> {
                 }
             } else if let ConstValue::Scalar(rustc_middle::mir::interpret::Scalar::Ptr(ptr, _)) = val {
                 let (prov, off) = ptr.prov_and_relative_offset();
-                if let rustc_middle::mir::interpret::GlobalAlloc::Memory(a) = self.tcx.global_alloc(prov.alloc_id()) {
-                    let a = a.inner();
-                    let len = a.len();
-                    let b = a.inspect_with_uninit_and_ptr_outside_interpreter(off.bytes() as usize..len);
-                    let _ = write!(o, ",\"bytes\":{}", bytes_json(b));
+                let mut alloc_id = prov.alloc_id();
+                let mut offset = off.bytes() as usize;
+                // follow `&&[u8; N]`-style constants: an allocation that only holds one pointer
+                for _ in 0..3 {
+                    if let rustc_middle::mir::interpret::GlobalAlloc::Memory(a) = self.tcx.global_alloc(alloc_id) {
+                        let a = a.inner();
+                        let ptrs = a.provenance().ptrs();
+                        if ptrs.len() == 1 && a.len() == 8 {
+                            let (_, p) = ptrs.iter().next().unwrap();
+                            let raw = a.inspect_with_uninit_and_ptr_outside_interpreter(0..8);
+                            let mut arr = [0u8; 8];
+                            arr.copy_from_slice(raw);
+                            offset = u64::from_le_bytes(arr) as usize;
+                            alloc_id = p.alloc_id();
+                            continue;
+                        }
+                        let len = a.len();
+                        let b = a.inspect_with_uninit_and_ptr_outside_interpreter(offset.min(len)..len);
+                        let _ = write!(o, ",\"bytes\":{}", bytes_json(b));
+                    }
+                    break;
                 }
             }
         }
